@@ -274,9 +274,16 @@ Proof.
   destruct (opid h =? 0)%nat eqn:E; [discriminate|]. apply Nat.eqb_neq in E. exact E.
 Qed.
 
+Lemma live_cand_true : forall path o,
+  live_cand path o = true -> odis (ohdr o) = false /\ cand path o = true.
+Proof.
+  intros path o H. unfold live_cand in H. apply andb_true_iff in H. destruct H as [H1 H2].
+  apply negb_true_iff in H1. auto.
+Qed.
+
 Lemma scan_sub : forall stop path l cs,
   scan stop path l = Ok cs ->
-  Forall (fun o => cand path o = true /\ stops stop o = false /\ In o l) cs.
+  Forall (fun o => cand path o = true /\ stops stop o = false /\ In o l /\ odis (ohdr o) = false) cs.
 Proof.
   intros stop path l. induction l as [|o r IH]; intros cs H.
   - cbn in H. inversion H. constructor.
@@ -285,9 +292,11 @@ Proof.
     destruct (stops stop o) eqn:Es; [inversion H; constructor|].
     apply bind_ok in H. destruct H as [cs' [Hs Hc]]. inversion Hc; subst; clear Hc.
     specialize (IH _ Hs).
-    assert (IH' : Forall (fun o0 => cand path o0 = true /\ stops stop o0 = false /\ In o0 (o :: r)) cs').
-    { eapply Forall_impl; [|exact IH]. cbn. intros a [H1 [H2 H3]]. auto. }
-    destruct (cand path o) eqn:Ec; [constructor; [cbn; auto|exact IH']|exact IH'].
+    assert (IH' : Forall (fun o0 => cand path o0 = true /\ stops stop o0 = false /\ In o0 (o :: r)
+                                     /\ odis (ohdr o0) = false) cs').
+    { eapply Forall_impl; [|exact IH]. cbn. intros a [H1 [H2 [H3 H4]]]. auto. }
+    destruct (live_cand path o) eqn:Ec; [|exact IH'].
+    destruct (live_cand_true _ _ Ec) as [Hd Hc]. constructor; [cbn; auto|exact IH'].
 Qed.
 
 Lemma scan_kind : forall stop path l,
@@ -305,23 +314,24 @@ Definition lex_post (stop:nat) (chain:ctx) (r:res (option found)) : Prop :=
   | Ok None => True
   | Ok (Some (o, ch)) =>
       stops stop o = false /\ (exists cur ups, ch = cur :: ups /\ In o cur) /\ (wf_chain chain -> wf_chain ch)
+      /\ odis (ohdr o) = false
   | UErr _ _ _ => False
   | Crash c => c = c_type \/ c = c_fuel
   end.
 
 Lemma try_cands_post : forall rec stop chain cur ups path l,
   chain = cur :: ups ->
-  (forall o, In o l -> stops stop o = false /\ In o cur) ->
+  (forall o, In o l -> stops stop o = false /\ In o cur /\ odis (ohdr o) = false) ->
   (forall c p, lex_post stop c (rec c p)) ->
   lex_post stop chain (try_cands rec chain path l).
 Proof.
   intros rec stop chain cur ups path l Hch. induction l as [|o rest IH]; intros Hl Hrec; [exact I|].
-  cbn [try_cands]. destruct (Hl o (or_introl eq_refl)) as [Hs Hin].
+  cbn [try_cands]. destruct (Hl o (or_introl eq_refl)) as [Hs [Hin Hdis]].
   destruct (eqs (onm o) path).
   - cbn. split; [exact Hs|]. split; [exists cur, ups; auto|auto].
   - pose proof (Hrec (okids o :: chain) (drop (length (onm o) + 1) path)) as Hr.
     destruct (rec (okids o :: chain) (drop (length (onm o) + 1) path)) as [[[o' ch']|]| |]; cbn [bind lex_post] in *.
-    + destruct Hr as [H1 [H2 H3]]. split; [exact H1|]. split; [exact H2|].
+    + destruct Hr as [H1 [H2 [H3 H4]]]. split; [exact H1|]. split; [exact H2|]. split; [|exact H4].
       intros Hwf. apply H3. constructor; [|exact Hwf].
       apply defs_have_ids_okids. subst chain. inversion Hwf; subst.
       eapply defs_have_ids_in; eauto.
@@ -339,7 +349,7 @@ Proof.
   destruct (scan stop path cur) as [cs| |c]; cbn [bind].
   - eapply try_cands_post; [reflexivity| |exact Hrec].
     intros o Hin. apply in_rev in Hin. specialize (S cs eq_refl).
-    rewrite Forall_forall in S. destruct (S o Hin) as [_ [H2 H3]]. auto.
+    rewrite Forall_forall in S. destruct (S o Hin) as [_ [H2 [H3 H4]]]. auto.
   - destruct K.
   - cbn. left. exact K.
 Qed.
@@ -355,7 +365,7 @@ Proof.
   cbn [lex_up]. specialize (Hh (cur :: ups)).
   destruct (here (cur :: ups)) as [[[o ch]|]| |]; cbn [bind]; try exact Hh.
   destruct (lex_up here ups) as [[[o ch]|]| |]; cbn in *; auto.
-  destruct IH as [H1 [H2 H3]]. split; [exact H1|]. split; [exact H2|].
+  destruct IH as [H1 [H2 [H3 H4]]]. split; [exact H1|]. split; [exact H2|]. split; [|exact H4].
   intros Hwf. apply H3. eapply wf_chain_tail; eauto.
 Qed.
 
@@ -375,7 +385,7 @@ Proof.
   destruct (strip_dot path) as [p|].
   - specialize (Hh (root_of chain) p).
     destruct (lex_here _ stop (root_of chain) p) as [[[o ch]|]| |]; cbn in *; auto.
-    destruct Hh as [H1 [H2 H3]]. split; [exact H1|]. split; [exact H2|].
+    destruct Hh as [H1 [H2 [H3 H4]]]. split; [exact H1|]. split; [exact H2|]. split; [|exact H4].
     intros Hwf. apply H3. apply wf_root_of. exact Hwf.
   - destruct su; [|apply Hh].
     apply lex_up_post. intros c. apply Hh.
@@ -389,12 +399,38 @@ Lemma lexical_get_found_def : forall f stop chain path su o ch,
 Proof.
   intros f stop chain path su o ch Hwf H.
   pose proof (lexical_get_post f stop chain path su) as P. rewrite H in P. cbn in P.
-  destruct P as [Hs [[cur [ups [Hch Hin]]] Hw]]. specialize (Hw Hwf). split; [exact Hw|].
+  destruct P as [Hs [[cur [ups [Hch Hin]]] [Hw _]]]. specialize (Hw Hwf). split; [exact Hw|].
   intros Hd. subst ch. inversion Hw; subst.
   assert (Hid : oid o <> 0) by (apply def_has_id; [eapply defs_have_ids_in; eauto|exact Hd]).
   split; [exact Hid|]. unfold stops in Hs. apply andb_false_iff in Hs. destruct Hs as [Hs|Hs].
   - apply negb_false_iff in Hs. apply Nat.eqb_eq in Hs. contradiction.
   - apply Nat.leb_gt in Hs. exact Hs.
+Qed.
+
+(* what a lookup returns is never a disabled object *)
+Lemma lexical_get_found_live : forall f stop chain path su o ch,
+  lexical_get f stop chain path su = Ok (Some (o, ch)) -> odis (ohdr o) = false.
+Proof.
+  intros f stop chain path su o ch H.
+  pose proof (lexical_get_post f stop chain path su) as P. rewrite H in P. cbn in P. tauto.
+Qed.
+
+Lemma scan_live : forall stop path l cs,
+  scan stop path l = Ok cs -> Forall (fun o => odis (ohdr o) = false /\ In o l) cs.
+Proof.
+  intros stop path l cs H. eapply Forall_impl; [|exact (scan_sub _ _ _ _ H)]. cbn. tauto.
+Qed.
+
+(* a disabled object that does not end the scan might as well be absent *)
+Lemma scan_skip_disabled : forall stop path l1 o l2,
+  stop <> 0 -> odis (ohdr o) = true -> stops stop o = false ->
+  scan stop path (l1 ++ o :: l2) = scan stop path (l1 ++ l2).
+Proof.
+  intros stop path l1 o l2 Hs Hd Hst. apply Nat.eqb_neq in Hs.
+  induction l1 as [|k r IH]; cbn [app scan].
+  - rewrite Hs, andb_false_r, Hst. unfold live_cand. rewrite Hd. cbn [negb andb].
+    destruct (scan stop path l2); reflexivity.
+  - rewrite IH. reflexivity.
 Qed.
 
 Lemma lexical_get_no_uerr : forall f stop chain path su k t l,
@@ -764,12 +800,12 @@ Qed.
 
 (* ------------------------------------------------------------------ search order *)
 Lemma scan_visible : forall stop path l,
-  stop <> 0 -> scan stop path l = Ok (filter (cand path) (visible stop l)).
+  stop <> 0 -> scan stop path l = Ok (filter (live_cand path) (visible stop l)).
 Proof.
   intros stop path l Hs. induction l as [|o r IH]; [reflexivity|].
   cbn [scan visible]. apply Nat.eqb_neq in Hs. rewrite Hs, andb_false_r.
   destruct (stops stop o); [reflexivity|]. rewrite IH. cbn [bind filter].
-  destruct (cand path o); reflexivity.
+  destruct (live_cand path o); reflexivity.
 Qed.
 
 Lemma try_cands_app : forall rec chain path la lb,
@@ -787,15 +823,15 @@ Qed.
 Lemma lex_here_visible : forall rec stop cur ups path,
   stop <> 0 ->
   lex_here rec stop (cur :: ups) path =
-  try_cands rec (cur :: ups) path (rev (filter (cand path) (visible stop cur))).
+  try_cands rec (cur :: ups) path (rev (filter (live_cand path) (visible stop cur))).
 Proof. intros. unfold lex_here. rewrite scan_visible by assumption. reflexivity. Qed.
 
 (* later objects of a scope take precedence over earlier ones *)
 Lemma lex_here_later_first : forall rec stop cur ups path l1 l2,
   stop <> 0 -> visible stop cur = l1 ++ l2 ->
   lex_here rec stop (cur :: ups) path =
-  match try_cands rec (cur :: ups) path (rev (filter (cand path) l2)) with
-  | Ok None => try_cands rec (cur :: ups) path (rev (filter (cand path) l1))
+  match try_cands rec (cur :: ups) path (rev (filter (live_cand path) l2)) with
+  | Ok None => try_cands rec (cur :: ups) path (rev (filter (live_cand path) l1))
   | r => r
   end.
 Proof.
@@ -806,17 +842,17 @@ Qed.
 Lemma cand_name : forall path o, eqs (onm o) path = true -> cand path o = true.
 Proof. intros path [h ws a|h ks a] H; unfold onm in H; cbn in *; rewrite H; reflexivity. Qed.
 
-(* the last visible object whose name is the path wins, whatever precedes it *)
+(* the last visible, not disabled object whose name is the path wins, whatever precedes it *)
 Lemma lex_here_last_wins : forall rec stop cur ups path l1 d l2,
   stop <> 0 -> visible stop cur = l1 ++ d :: l2 ->
-  onm d = path -> (forall o, In o l2 -> cand path o = false) ->
+  onm d = path -> odis (ohdr d) = false -> (forall o, In o l2 -> live_cand path o = false) ->
   lex_here rec stop (cur :: ups) path = Ok (Some (d, cur :: ups)).
 Proof.
-  intros rec stop cur ups path l1 d l2 Hs Hv Hn Hl2.
+  intros rec stop cur ups path l1 d l2 Hs Hv Hn Hdis Hl2.
   rewrite (lex_here_later_first rec stop cur ups path l1 (d :: l2) Hs Hv).
   cbn [filter]. assert (He : eqs (onm d) path = true) by (rewrite Hn; apply eqs_refl).
-  rewrite (cand_name _ _ He).
-  assert (Hf : filter (cand path) l2 = []).
+  unfold live_cand at 1. rewrite Hdis, (cand_name _ _ He). cbn [negb andb].
+  assert (Hf : filter (live_cand path) l2 = []).
   { clear Hv. induction l2 as [|o r IH]; [reflexivity|]. cbn. rewrite (Hl2 o (or_introl eq_refl)).
     apply IH. intros; apply Hl2; right; assumption. }
   rewrite Hf. cbn [rev app try_cands]. rewrite He. reflexivity.
